@@ -1,9 +1,70 @@
-From Common Require Import Bytes Blake2b.
-From C03 Require Import Model Proofs.
+(* C03/Properties.v — property C03: trie snapshots are isolated from one another.
+   Only statements, each closed by `exact <lemma>`, with Print Assumptions beneath.
 
+   The model (Model.v) is an explicit heap of trie nodes with generation, Dirty flag, cached
+   Merkle value and MustBeHashed; a handle is (generation, root, version).  [run H fx fd hist st]
+   executes a fork history (Snapshot / Put / Delete / ClearPrefix / SetVersion / WriteDirty / Hash
+   on any handle); fx = true is the repaired code.  [view H fg st j] is what a reader of handle j
+   sees: Hash() (computed through the Merkle-value caches) and Entries().
+   H is an arbitrary hash function; fd, fg select the variants of Delete/Get with or without the
+   pending repairs of property C02 (the theorem holds for all four combinations).
+   [frozen_parents hist]: no handle is mutated (Put/Delete/ClearPrefix) after a snapshot was taken
+   from it — the copy-on-write contract under which "modified independently" is read
+   (DESIGN.md §5 C03); SetVersion, WriteDirty, Hash and further snapshots of it remain allowed. *)
+From Common Require Import Bytes Blake2b.
+From C03 Require Import Model Proofs Main.
+
+(* No step of a fork history changes what is seen through any handle other than the one it
+   mutates; steps that mutate no handle (Snapshot, SetVersion — raising the version included —,
+   WriteDirty, Hash) change no view at all. *)
+Theorem C03_isolation :
+  forall (H : list byte -> list byte) (fd fg : bool) (hist : list step),
+  frozen_parents hist = true ->
+  forall n s, nth_error hist n = Some s ->
+  forall j, mutated_handle s <> Some j ->
+    j < length (s_hs (run H true fd (firstn n hist) init_state)) ->
+    view H fg (run H true fd (firstn (S n) hist) init_state) j
+    = view H fg (run H true fd (firstn n hist) init_state) j.
+Proof. exact isolation. Qed.
+Print Assumptions C03_isolation.
+
+(* A new snapshot shows exactly what its source shows. *)
+Theorem C03_snapshot_view :
+  forall (H : list byte -> list byte) (fd fg : bool) (hist : list step),
+  frozen_parents hist = true ->
+  forall n i, nth_error hist n = Some (Snap i) ->
+  let before := run H true fd (firstn n hist) init_state in
+  i < length (s_hs before) ->
+  view H fg (run H true fd (firstn (S n) hist) init_state) (length (s_hs before)) = view H fg before i.
+Proof. exact snapshot_view. Qed.
+Print Assumptions C03_snapshot_view.
+
+(* The pinned code (MustBeHashed and SetDirty applied to the shared node before
+   prepForMutation) violated the property: raising a snapshot's version and re-putting an
+   unchanged 40-byte value changes the view through the original. *)
 Theorem C03_version_upgrade_refuted :
   frozen_parents bad_hist = true /\
   view blake2b_256 false (run blake2b_256 false false bad_hist init_state) 0
     <> view blake2b_256 false (run blake2b_256 false false (firstn 3 bad_hist) init_state) 0.
 Proof. exact version_upgrade_refuted. Qed.
 Print Assumptions C03_version_upgrade_refuted.
+
+(* non-vacuity: a history satisfying the hypothesis with snapshots of snapshots, a version
+   upgrade, WriteDirty, deletions, in which all four handles end up with different views *)
+Example C03_nonvacuous :
+  frozen_parents fork_hist = true
+  /\ length (s_hs (run blake2b_256 true false fork_hist init_state)) = 4
+  /\ (let st := run blake2b_256 true false fork_hist init_state in
+      view blake2b_256 false st 0 <> view blake2b_256 false st 1
+      /\ view blake2b_256 false st 1 <> view blake2b_256 false st 2
+      /\ view blake2b_256 false st 1 <> view blake2b_256 false st 3
+      /\ view blake2b_256 false st 0 <> None).
+Proof. exact fork_hist_nonvacuous. Qed.
+
+(* informational: the hypothesis is needed — a parent mutated after a snapshot shares its
+   in-place writes with the snapshot by design *)
+Example C03_parent_mutation_shares :
+  frozen_parents parent_hist = false /\
+  view blake2b_256 false (run blake2b_256 true false parent_hist init_state) 1
+    <> view blake2b_256 false (run blake2b_256 true false (firstn 2 parent_hist) init_state) 1.
+Proof. exact parent_mutation_shares. Qed.
